@@ -103,6 +103,8 @@ class C08(Check):
         self.check_state(eng, it, m, r, "after construction")
 
         def do_next(tag):
+            if not tag.startswith("step"):
+                eng.step(tag)
             n_log = len(r.log)
             try:
                 fr = next(it)
@@ -130,6 +132,7 @@ class C08(Check):
 
         def do_op(i, op):
             tag = f"step {i} {ic.OPS[op]}"
+            eng.step(ic.OPS[op])
             name = ic.OPS[op]
             if name == "next":
                 do_next(tag)
